@@ -1,6 +1,7 @@
 """Deterministic generators.  Every random choice derives from one splitmix64 state."""
 from fractions import Fraction as F
-import itertools
+import itertools, sys
+sys.set_int_max_str_digits(0)
 
 INF = "inf"
 NINF = "-inf"
